@@ -448,7 +448,7 @@ func c37SetValue(r *Rng, attr string) string {
 	case "width", "height":
 		return r.Pick([]string{"120", "200", "333", "1"})
 	case "link":
-		return r.Pick([]string{"https://example.com/a", "https://example.com/a?b=c#d", "http://x.y/#frag;1", "layers.x"})
+		return r.Pick([]string{"https://example.com/a", "https://example.com/a?b=c#d", "http://x.y/#frag;1", "https://e.org/[x]|y"})
 	}
 	return "1"
 }
@@ -619,6 +619,30 @@ func c37FromG12(op *c38Op) *c37Op {
 var c37Kinds = []string{"create-obj", "create-obj", "create-obj", "create-edge", "create-edge", "set-obj", "set-obj", "set-obj", "set-edge", "set-edge"}
 var c37OtherKinds = []string{"delobj", "deledge", "rename", "move", "delobjattr", "deledgeattr"}
 
+// c37Must: the operation has to succeed, judged independently of d2oracle: the text before the edit
+// extended by one line that declares the requested element / attribute value (written through
+// d2ast.RawString) compiles.  A refusal of such a request is reported (code 40); a refusal of a request
+// whose direct declaration the compiler rejects too (a value outside the attribute's domain, a control
+// character in a label, an edge that enters a near-constant shape ...) is not.
+func c37Must(text string, op *c37Op) bool {
+	line := ""
+	switch op.Kind {
+	case "create-obj":
+		line = op.Key
+	case "create-edge":
+		if op.eid.hasIdx {
+			return false
+		}
+		line = op.Key
+	case "set-obj", "set-edge":
+		line = op.Key + ": " + d2format.Format(d2ast.RawString(op.Val, false))
+	default:
+		return false
+	}
+	_, err := c38Compile(text + "\n" + line + "\n")
+	return err == nil
+}
+
 // c37Case renders one Create / Set step.
 func c37Case(pg *c37PGraph, op *c37Op, res c37Result, class, text string, step int) Case {
 	c := Case{Class: class + "/" + op.Kind, Nontrivial: true, Key: text + "|" + op.Kind + "|" + op.Key + "|" + op.Val}
@@ -643,6 +667,11 @@ func c37Case(pg *c37PGraph, op *c37Op, res c37Result, class, text string, step i
 			impl["newKey"] = res.newKey
 		}
 	}
+	must := false
+	if failed {
+		must = c37Must(text, op)
+		impl["must_succeed"] = must
+	}
 	c.Impl = impl
 	ra, ea := c37CoqPRows(after), c37CoqPEdges(after)
 	gb := c37CoqGraph(pg)
@@ -656,7 +685,7 @@ func c37Case(pg *c37PGraph, op *c37Op, res c37Result, class, text string, step i
 				c.ImplFail = append(c.ImplFail, fmt.Sprintf("returned key %q is not an object key", res.newKey))
 			}
 		}
-		c.Coq = fmt.Sprintf("KCreateObj %s %s %s %s %s %s", gb, c37CoqPath(op.keyPath), coqBool(op.unq), ret, ra, ea)
+		c.Coq = fmt.Sprintf("KCreateObj %s %s %s %s %s %s %s", gb, c37CoqPath(op.keyPath), coqBool(op.unq), coqBool(must), ret, ra, ea)
 	case "create-edge":
 		ret := "None"
 		if !failed {
@@ -667,11 +696,11 @@ func c37Case(pg *c37PGraph, op *c37Op, res c37Result, class, text string, step i
 			}
 		}
 		c.Coq = fmt.Sprintf("KCreateEdge %s %s %s %s %s %s %s %s %s", gb, c37CoqPath(op.eid.src), c37CoqPath(op.eid.dst),
-			coqBool(op.eid.sa), coqBool(op.eid.da), coqBool(op.eid.hasIdx), ret, ra, ea)
+			coqBool(op.eid.sa), coqBool(op.eid.da), coqBool(must), ret, ra, ea)
 	case "set-obj":
-		c.Coq = fmt.Sprintf("KSetObj %s %d %d %s %s %s %s", gb, op.tgt.Lbl, c37AttrCode(op.attr), coqRunes(op.Val), coqBool(failed), ra, ea)
+		c.Coq = fmt.Sprintf("KSetObj %s %d %d %s %s %s %s %s", gb, op.tgt.Lbl, c37AttrCode(op.attr), coqRunes(op.Val), coqBool(failed), coqBool(must), ra, ea)
 	case "set-edge":
-		c.Coq = fmt.Sprintf("KSetEdge %s %d %d %s %s %s %s", gb, op.tedge.Lbl, c37AttrCode(op.attr), coqRunes(op.Val), coqBool(failed), ra, ea)
+		c.Coq = fmt.Sprintf("KSetEdge %s %d %d %s %s %s %s %s", gb, op.tedge.Lbl, c37AttrCode(op.attr), coqRunes(op.Val), coqBool(failed), coqBool(must), ra, ea)
 	}
 	return c
 }
@@ -683,6 +712,21 @@ func c37KF(g *d2graph.Graph, pg *c37PGraph, op *c37Op) []string {
 	case "create-edge":
 		if op.eid.hasIdx {
 			kf = append(kf, "C37-create-indexed-edge-key")
+		}
+	case "set-edge":
+		// the connection's label is declared by a `label` field inside its map: `a -> b: {label: x}`
+		if op.attr == "label" {
+			for _, ref := range op.tedge.edge.References {
+				if ref.MapKey == nil || ref.MapKey.Value.Map == nil {
+					continue
+				}
+				for _, n := range ref.MapKey.Value.Map.Nodes {
+					if n.MapKey != nil && n.MapKey.Key != nil && len(n.MapKey.Edges) == 0 && len(n.MapKey.Key.Path) == 1 &&
+						n.MapKey.Key.Path[0].Unbox().ScalarString() == "label" {
+						kf = append(kf, "C37-set-edge-label-declared-in-map")
+					}
+				}
+			}
 		}
 	}
 	return kf
